@@ -62,8 +62,8 @@ Inductive SPc :=
 
 Inductive CPc :=
 | CNew | CIdle (* parked at the point of the next script op *)
-| CLock        (* get_frame: lock_acquire (line 516) *)
-| CPre         (* get_frame: prewait on frame_ready, holding the lock (line 521) *)
+| CLock        (* get_frame: lock_acquire (line 521) *)
+| CPre         (* get_frame: prewait on frame_ready, holding the lock (line 526) *)
 | CWait        (* get_frame: waiting on frame_ready *)
 | CExit | CDone
 | CTrap.       (* get_frame failed inside the device while the HAL state was Running: the HAL would now call
@@ -71,11 +71,11 @@ Inductive CPc :=
 
 Inductive KPc :=
 | KNew | KIdle
-| KTrigLock                  (* execute_trigger: lock_acquire (line 477) *)
+| KTrigLock                  (* execute_trigger: lock_acquire (line 482) *)
 | KSetTrigLock (e : bool)    (* set, switching triggering off: the lock_acquire of the trigger it fires (line 388) *)
 | KSetLock (e : bool)        (* set: lock_acquire (line 393) *)
-| KStopLock                  (* stop: is_running already cleared; lock_acquire of its trigger (line 492) *)
-| KStopJoin                  (* stop: thread_join (line 496) *)
+| KStopLock                  (* stop: is_running already cleared; lock_acquire of its trigger (line 482, called from line 497) *)
+| KStopJoin                  (* stop: thread_join (line 501) *)
 | KExit | KDone.
 
 Inductive Ev :=
@@ -179,7 +179,7 @@ Definition kstep (s : St) : option (St * Label) :=
       | KStart =>
         match hal s with
         | HArmed =>
-          (* harness: state == Armed.  camera_start -> simcam_start (lines 455-466): *)
+          (* harness: state == Armed.  camera_start -> simcam_start (lines 459-474): *)
           let s1 := set_running true s0 in
           let s2 := set_last (-1) s1 in
           let s3 := set_fid (-1) s2 in
@@ -217,7 +217,7 @@ Definition kstep (s : St) : option (St * Label) :=
     else None
   | KSetLock e =>
     if lock_free s then
-      (* properties = *settings (lines 393-429); camera_set: Device_Ok -> Armed unless Running *)
+      (* properties = *settings (lines 393-434); camera_set: Device_Ok -> Armed unless Running *)
       let s1 := set_enable e s in
       let s2 := match hal s with HRunning => s1 | _ => set_hal HArmed s1 end in
       Some (set_kpc (knext (kscript s)) s2, mkLabel Ctl PLock OLock false [EvRet (KSet e) 0])
@@ -240,7 +240,7 @@ Definition kstep (s : St) : option (St * Label) :=
   end.
 
 (* ------------------------------------------------------------------------------------------ caller *)
-(* simcam_get_frame from the while loop on (lines 519-534), the lock being held *)
+(* simcam_get_frame from the while loop on (lines 524-539), the lock being held *)
 Definition c_loop (s : St) (L : list Ev -> Label) : St * Label :=
   if running s && (fid s <=? last s)
   then (set_cpc CPre s, L [])
@@ -267,7 +267,7 @@ Definition cstep (s : St) : option (St * Label) :=
         let L := mkLabel Cal PDev (OOpC CGet) false in
         match hal s with
         | HRunning =>                              (* camera_get_frame: state == Running *)
-          if running s                             (* CHECK(self->streamer.is_running), line 511 *)
+          if running s                             (* CHECK(self->streamer.is_running), line 516 *)
           then Some (set_cpc CLock s0, L [])
           else Some (set_cpc CTrap s0, L [EvTrap])
         | _ => Some (set_cpc (cnext r) s0, L [EvGet 1 false (-1)])
